@@ -6090,6 +6090,38 @@ def c20_integrator_alias(K, const_params=False):
     return go()
 
 
+def c20_cov_dist_order():
+    """LowPass.compute_cov_dist(data_dict, pop_ids): the returned dictionary lists the populations in the order of pop_ids (its values are later zipped
+    positionally with per-population sample sizes and inbreeding coefficients by make_low_pass_func_GATK_multisample), and nothing in it is produced
+    by iterating over a set - an order that depends on the interpreter's string hash seed.  numpy calls abstract; two populations given in
+    non-alphabetical order, two data entries."""
+    oid = 'C20/LowPass.py:compute_cov_dist/order'
+    fn = 'dadi/LowPass/LowPass.py::compute_cov_dist'
+
+    @guarded(oid, fn)
+    def go():
+        ex = Executor(policy=lambda fr: 'inline' if fr.qualname == 'compute_cov_dist' else 'abstract')
+        f = ex.func('dadi/LowPass/LowPass.py', 'compute_cov_dist')
+        pops = ['YRI', 'CEU']
+        dd = VDict({'s%d' % i: VDict({'coverage': VDict({p: Tm('depths_%s_%d' % (p, i)) for p in pops})}) for i in range(2)})
+        paths = ex.run(f, [dd, VList(list(pops))], {})
+        rets = [p for p in paths if p.outcome == 'return']
+        if len(rets) != 1 or len(paths) != 1 or not isinstance(rets[0].value, VDict):
+            return [struct(oid, False, 'expected one path returning a dictionary: %r' % paths[:2], fn, undecided=True)]
+        p = rets[0]
+        unordered = [e for e in p.log if e[0] == 'unordered-iteration']
+        keys = list(p.value.d.keys())
+        out = [struct(oid + '.no-set-iteration', not unordered, 'no loop runs over a set' if not unordered else
+                      'a loop runs over a set of %d elements at %s: its order depends on the hash seed' % (unordered[0][2], unordered[0][1]), fn,
+                      finding_key='C20/compute_cov_dist/order'),
+               struct(oid + '.keys-in-pop_ids-order', keys == pops, 'populations listed in the order of pop_ids (got %s)' % keys, fn,
+                      finding_key='C20/compute_cov_dist/order')]
+        ok_src = all(('depths_%s_' % k) in vrepr(v) and not any(('depths_%s_' % o) in vrepr(v) for o in pops if o != k) for k, v in p.value.d.items())
+        out.append(struct(oid + '.own-depths', ok_src, 'each population\'s distribution is computed from its own depths', fn, finding_key='C20/compute_cov_dist/order'))
+        return out
+    return go()
+
+
 def c20_integrator_frame_semantic():
     out = []
     for K in (1, 2, 3, 4, 5):
